@@ -174,6 +174,11 @@ def run(ck):
         for i in range(n):
             size = 0 if i % 3 == 0 else (1 if i % 3 == 1 or quick else 2)
             reqs.append("gen %s %s-g%d %d %d" % (fmt, fmt, i, ck.seed * 100003 + i * 7 + vlib.hash_str(fmt) % 1000, size))
+        if fmt == "xm":
+            # regression witnesses of the two repaired end-of-file defects (their signatures must fire again if they return)
+            for w in (7, 8):
+                for j in range(3):
+                    reqs.append("gen xm xm-w%d-%d %d %d" % (w, j, ck.seed * 100003 + 17 * j + w, w))
         gen = run_many([drv], reqs)
         hexreqs = []
         for rc, blocks, err, ls in gen:
